@@ -1189,7 +1189,9 @@ func (w *World) apply(tr string) bool {
 		}
 		r.send(rc.Msg{Kind: rc.NotInterested})
 		r.sentInterested = false
-		r.pendingUp = nil
+		// NotInterested does not cancel requests: they stay pending until
+		// storrent's Choke (or its rejects) arrive; a Piece written before
+		// storrent read this message is still an answer to its request
 	case "req": // req:<remote>:<index>:<begin>:<length>
 		if r.closed {
 			return false
